@@ -209,14 +209,20 @@ pub fn check(prog: &Program, ex: &Execution, cfg: &OracleCfg) -> OracleOut {
             }
         }
         let hooks = &ex.hooks;
-        move |send: (usize, usize)| -> Option<usize> {
-            let (i, q) = *pushed.get(&send)?;
-            hooks[i..].iter().enumerate().find_map(|(d, ev)| match ev.point {
-                Point::RecvEmpty { q: q2 } if q2 == q => Some(cycle_at[i + d]),
+        let mut map: HashMap<(usize, usize), usize> = HashMap::new();
+        for (send, (i, q)) in pushed.iter() {
+            let c = hooks[*i..].iter().enumerate().find_map(|(d, ev)| match ev.point {
+                Point::RecvEmpty { q: q2 } if q2 == *q => Some(cycle_at[*i + d]),
                 _ => None,
-            })
+            });
+            if let Some(c) = c {
+                map.insert(*send, c);
+            }
         }
+        map
     };
+    let consumed_map = consumed_in_cycle.clone();
+    let consumed_in_cycle = move |send: (usize, usize)| -> Option<usize> { consumed_in_cycle.get(&send).copied() };
     let is_dropped = |s: Option<(usize, usize)>| s.map(|s| dropped.contains(&s)).unwrap_or(false);
 
     // ---- names ----
@@ -379,47 +385,71 @@ pub fn check(prog: &Program, ex: &Execution, cfg: &OracleCfg) -> OracleOut {
         }
     }
     cn.records = recs.len();
-    // rename enter_on_poll records by begin-time order within (adapter, trace id, parent copy)
+    // enter_on_poll records of one adapter share a name. The generator makes every such poll
+    // attach one property with a unique key to its local span first thing, which identifies the
+    // poll a record belongs to; records without such a fingerprint are matched in begin-time order.
     {
         let mut pn: HashMap<String, u32> = HashMap::new();
         for a in poll_locals.keys() {
             pn.insert(pname(*a), *a);
         }
         if !pn.is_empty() {
-            let mut groups: HashMap<(u32, u128), Vec<usize>> = HashMap::new();
-            for (i, r) in recs.iter().enumerate() {
-                if let Some(a) = pn.get(&r.name) {
-                    groups.entry((*a, r.r.trace_id.0)).or_default().push(i);
-                }
-            }
-            for ((a, _), mut idx) in groups {
-                idx.sort_by_key(|i| (recs[*i].r.begin_time_unix_ns, recs[*i].r.span_id.0));
-                // the k-th distinct span id is the k-th recording poll of that trace copy set
-                let mut order: Vec<u64> = vec![];
-                for i in &idx {
-                    let id = recs[*i].r.span_id.0;
-                    if !order.contains(&id) {
-                        order.push(id);
+            let mut finger: HashMap<String, u32> = HashMap::new();
+            for ls in poll_locals.values() {
+                for l in ls {
+                    for a in &m.locals[l].atts {
+                        if let AttKind::Props { k0, n } = a.kind {
+                            for k in k0..k0 + n as u32 {
+                                finger.insert(key(k), *l);
+                            }
+                        }
                     }
                 }
-                // polls that recorded into this trace, in creation order
-                let polls: Vec<u32> = poll_locals[&a]
-                    .iter()
-                    .copied()
-                    .filter(|l| {
-                        exps.iter().any(|e| e.ent == Ent::L(*l) && e.trace_id == recs[idx[0]].r.trace_id.0)
-                    })
-                    .collect();
+            }
+            let mut by_adapter: HashMap<u32, Vec<usize>> = HashMap::new();
+            for (i, r) in recs.iter().enumerate() {
+                if let Some(a) = pn.get(&r.name) {
+                    by_adapter.entry(*a).or_default().push(i);
+                }
+            }
+            for (a, mut idx) in by_adapter {
+                idx.sort_by_key(|i| (recs[*i].r.begin_time_unix_ns, recs[*i].r.span_id.0));
+                let mut id_to_l: HashMap<u64, u32> = HashMap::new();
+                for i in &idx {
+                    for (k, _) in &recs[*i].r.properties {
+                        if let Some(l) = finger.get(k.as_ref()) {
+                            if poll_locals[&a].contains(l) {
+                                id_to_l.entry(recs[*i].r.span_id.0).or_insert(*l);
+                            }
+                        }
+                    }
+                }
+                let mut free: Vec<u32> = poll_locals[&a].iter().copied().filter(|l| !id_to_l.values().any(|x| x == l)).collect();
+                let mut extra = 0;
                 for i in idx {
-                    let k = order.iter().position(|x| *x == recs[i].r.span_id.0).unwrap();
-                    let nm = match polls.get(k) {
+                    let id = recs[i].r.span_id.0;
+                    let l = match id_to_l.get(&id) {
+                        Some(l) => Some(*l),
+                        None => {
+                            if free.is_empty() {
+                                None
+                            } else {
+                                let l = free.remove(0);
+                                id_to_l.insert(id, l);
+                                Some(l)
+                            }
+                        }
+                    };
+                    recs[i].name = match l {
                         Some(l) => {
-                            let gk = poll_locals[&a].iter().position(|x| x == l).unwrap();
+                            let gk = poll_locals[&a].iter().position(|x| *x == l).unwrap();
                             format!("{}#{}", pname(a), gk)
                         }
-                        None => format!("{}#extra{}", pname(a), k),
+                        None => {
+                            extra += 1;
+                            format!("{}#extra{}", pname(a), extra)
+                        }
                     };
-                    recs[i].name = nm;
                 }
             }
             for (a, ls) in &poll_locals {
@@ -673,7 +703,7 @@ pub fn check(prog: &Program, ex: &Execution, cfg: &OracleCfg) -> OracleOut {
     }
 
     // ---- attachments ----
-    check_attachments(prog, ex, cfg, &exps, &pairs.iter().map(|(r, e)| (recs[*r].r, recs[*r].name.clone(), *e)).collect::<Vec<_>>(), &commit_time, &start_lost, &dropped, &mut out, &mut cn);
+    check_attachments(prog, ex, cfg, &exps, &pairs.iter().map(|(r, e)| (recs[*r].r, recs[*r].name.clone(), *e)).collect::<Vec<_>>(), &commit_time, &start_lost, &dropped, &consumed_map, &mut out, &mut cn);
 
     // ---- contexts ----
     for (flat, info) in m.ops.iter().enumerate() {
@@ -763,6 +793,11 @@ pub fn check(prog: &Program, ex: &Execution, cfg: &OracleCfg) -> OracleOut {
                         }
                         *flat += 1;
                     }
+                    Op::Reent { steps, .. } => {
+                        *flat += 1;
+                        walk(steps, flat, ex, out);
+                        *flat += 1;
+                    }
                     _ => *flat += 1,
                 }
             }
@@ -829,6 +864,7 @@ fn check_attachments(
     commit_time: &[Option<(usize, usize)>],
     start_lost: &[bool],
     dropped: &HashSet<(usize, usize)>,
+    consumed: &HashMap<(usize, usize), usize>,
     out: &mut Vec<Violation>,
     cn: &mut Counters,
 ) {
@@ -998,6 +1034,21 @@ fn check_attachments(
                 sig.to_string()
             }
         };
+        // recorded finding [D11]: the command carrying the attachment was consumed by a collector
+        // cycle before the StartCollect of the trace (sent earlier through another queue)
+        let start_cycle = m.traces[e.trace].start_send.map(|x| send_time(prog, x)).and_then(|s| consumed.get(&s).copied());
+        let missing_sig = |a: &Att, base: &str| -> String {
+            let carrier = match (a.route, a.line) {
+                (Route::Handle, _) => a.submit_send,
+                (_, Some(li)) => m.lines[li].submit_send,
+                _ => None,
+            };
+            let cc = carrier.map(|x| send_time(prog, x)).and_then(|s| consumed.get(&s).copied());
+            match (cc, start_cycle) {
+                (Some(c), Some(st)) if st > c => "submit-consumed-before-start-cross-queue".to_string(),
+                _ => known(base),
+            }
+        };
         // order: per (route, thread), position of the last attachment and the scope that carried it
         let order_sig = |prev_line: Option<usize>, line: Option<usize>, base: &str| -> String {
             if dup_shape {
@@ -1021,7 +1072,7 @@ fn check_attachments(
                         v(out, Cat::AttachDup, &known("property-duplicated"), format!("{:?}: property {:?} appears {} times", rname, ks, ps.len()));
                     }
                     if ps.is_empty() && *must {
-                        v(out, Cat::AttachMissing, &known("property-missing"), format!("{:?}: property {:?} (attached by flat op {}, route {:?}) is missing", rname, ks, a.op, a.route));
+                        v(out, Cat::AttachMissing, &missing_sig(a, "property-missing"), format!("{:?}: property {:?} (attached by flat op {}, route {:?}) is missing", rname, ks, a.op, a.route));
                     }
                     if let Some(p) = ps.first() {
                         if rest[*p].1 != val(k) {
@@ -1069,7 +1120,7 @@ fn check_attachments(
                     v(out, Cat::AttachDup, &known("event-duplicated"), format!("{:?}: event {:?} appears {} times", rname, n, ps.len()));
                 }
                 if ps.is_empty() && *must {
-                    v(out, Cat::AttachMissing, &known("event-missing"), format!("{:?}: event {:?} (added by flat op {}, route {:?}) is missing", rname, n, a.op, a.route));
+                    v(out, Cat::AttachMissing, &missing_sig(a, "event-missing"), format!("{:?}: event {:?} (added by flat op {}, route {:?}) is missing", rname, n, a.op, a.route));
                 }
                 if let Some(p) = ps.first() {
                     let want: Vec<(String, String)> = (k0..k0 + np as u32).map(|k| (key(k), val(k))).collect();
@@ -1151,7 +1202,7 @@ fn check_copies(
     fn walk<'a>(ops: impl Iterator<Item = &'a Op>, flat: &mut usize, f: &mut dyn FnMut(usize, &'a Op)) {
         for op in ops {
             match op {
-                Op::ACall { steps, .. } => {
+                Op::ACall { steps, .. } | Op::Reent { steps, .. } => {
                     f(*flat, op);
                     *flat += 1;
                     walk(steps.iter(), flat, f);
@@ -1346,7 +1397,7 @@ fn find_elapsed_span(op: &Op, rel: usize) -> Option<u32> {
             });
         }
         *rel -= 1;
-        if let Op::ACall { steps, .. } = op {
+        if let Op::ACall { steps, .. } | Op::Reent { steps, .. } = op {
             for s in steps {
                 if let Some(x) = go(s, rel) {
                     return Some(x);
